@@ -998,7 +998,7 @@ theorem fresh_needs_rebuild_aux (d : Def) (hm : d.model = .none) :
   · intro sa; cases sa <;> simp [freshOutcome, step, fresh, init, prog, progKM, lookup, sizeUnless, run, exec, hstep, hm]
   · intro sa; cases sa <;> simp [freshOutcome, step, fresh, init, prog, progKA, lookup, sizeUnless, run, exec, hstep, hm]
   · simp [freshOutcome, step, fresh, init, prog, lookup, run, exec, hstep, hm]
-  · intro f; cases f <;> simp [freshOutcome, step, fresh, init, prog, run, exec, hstep, hm]
+  · intro f; cases f <;> simp [freshOutcome, step, fresh, init, prog, progFint, run, exec, hstep, hm]
   · simp [freshOutcome, step, fresh, init, prog, lookup, run, exec, hstep, hm, wstep, rstep]
   · simp [freshOutcome, step, fresh, init, prog, progStrain, lookup, run, exec, hstep, hm, wstep, rstep]
   · intro f; cases f <;>
@@ -1118,3 +1118,175 @@ theorem explicit_size_counterexample_aux :
   decide
 
 end Compmech.Lifecycle.Panel
+
+/-! ## PanelAssembly: decided on completely specified flat panels -/
+namespace Compmech.Lifecycle.Asm
+open Compmech.Lifecycle.Panel
+
+/-- two completely specified flat panels joined by one connection -/
+def stdAsm (offsetZero : Bool) : ADef := ⟨stdDef .flat offsetZero, stdDef .flat offsetZero, true⟩
+
+def connOf : AOutcome → Option ConnTok
+  | .ok _ _ c => c
+  | .err _ => none
+
+/-- `get_k0_conn` returns the cached matrix whenever there is one: the `conn` argument of a later
+`calc_k0(conn=…)` is ignored -/
+theorem conn_cache_counterexample_aux :
+    let a := stdAsm true
+    ((connOf (astep a (afresh a) (.k0 true)).2).map (·.id)) = some .other ∧
+    ((connOf (astep a (astep a (afresh a) (.k0 false)).1 (.k0 true)).2).map (·.id)) = some .own := by
+  decide
+
+/-- `get_k0_conn()` before any `calc_k0` builds the penalty constants from laminates WITHOUT offset, caches the
+matrix, and every later `calc_k0` / `calc_kT` adds that cached matrix -/
+theorem conn_order_counterexample_aux :
+    let a := stdAsm false
+    let lamOf (o : AOutcome) := (connOf o).map (·.t1)
+    lamOf (astep a (afresh a) (.k0 false)).2 = some [([.ktkr], [.model .plate, .lam (.built .rep .rep .own)])] ∧
+    lamOf (astep a (astep a (afresh a) (.conn false)).1 (.k0 false)).2 =
+      some [([.ktkr], [.model .plate, .lam (.built .rep .rep .zero)])] ∧
+    -- no difference for a zero offset
+    (astep (stdAsm true) (afresh (stdAsm true)) (.k0 false)).2 =
+      (astep (stdAsm true) (astep (stdAsm true) (afresh (stdAsm true)) (.conn false)).1 (.k0 false)).2 := by
+  decide
+
+def aallOps : List AOp :=
+  [.size, .k0 false, .k0 true, .kG0, .kG, .kM, .kT, .fint, .fext, .conn false, .conn true, .uvw, .strain, .stress]
+
+theorem asm_fresh_aux (oz : Bool) :
+    let a := stdAsm oz
+    aallOps.filter (fun op => (astep a (afresh a) op).2.isOk) =
+      [.size, .k0 false, .k0 true, .kG0, .kT, .fext, .conn false, .conn true] ∧
+    aallOps.filter (fun op => (astep a (astep a (afresh a) (.k0 false)).1 op).2.isOk) = aallOps := by
+  cases oz <;> decide
+
+end Compmech.Lifecycle.Asm
+
+/-! ## StiffPanelBay -/
+namespace Compmech.Lifecycle.Bay
+
+theorem bay_result_aux (d : BDef) (s : BState) (op o : BOp) (h : (bstep d s op).2 = .ok o) : o = op := by
+  cases op <;> simp only [bstep] at h <;> (repeat' split at h) <;> simp at h <;> exact h.symm
+
+theorem bay_fresh_aux (sf : Bool) :
+    let d : BDef := ⟨false, sf⟩
+    ballOps.filter (fun op => (bstep d (bfresh d) op).2.isOk) = [.k0, .kG0, .kM] ∧
+    (bstep d (bfresh d) .kA).2 = .err .AttributeError ∧ (bstep d (bfresh d) .fext).2 = .err .KeyError ∧
+    (bstep d (bfresh d) .uvw).2 = .err .KeyError ∧ (bstep d (bfresh d) .size).2 = .err .KeyError ∧
+    ballOps.filter (fun op => (bstep d (bstep d (bfresh d) .k0).1 op).2.isOk) =
+      [.size, .k0, .kG0, .kM, .kA, .fext, .uvw] := by
+  cases sf <;> decide
+
+/-- an unstiffened (or curved) bay never trips the stiffeners' assertion: `calc_cA` is the only call that raises
+once `calc_k0()` has run, in every history -/
+theorem bay_after_k0_aux (d : BDef) (hd : d.stiffFlat = false) (ops : List BOp) (op : BOp) (hop : op ≠ .cA) :
+    (bstep d (brunOps d (bstep d (bfresh d) .k0).1 ops) op).2 = .ok op := by
+  have key : ∀ (ops : List BOp) (s : BState), s.model = true → s.size = true →
+      (brunOps d s ops).model = true ∧ (brunOps d s ops).size = true := by
+    intro ops
+    induction ops with
+    | nil => intro s h1 h2; exact ⟨h1, h2⟩
+    | cons o os ih =>
+      intro s h1 h2
+      simp only [brunOps]
+      apply ih
+      · cases o <;> simp [bstep, rebuildOk, hd, h1, h2]
+      · cases o <;> simp [bstep, rebuildOk, hd, h1, h2]
+  have h0 : (bstep d (bfresh d) .k0).1 = ⟨true, true, true, true⟩ := by simp [bstep, rebuildOk, hd]
+  rw [h0]
+  obtain ⟨h1, h2⟩ := key ops ⟨true, true, true, true⟩ rfl rfl
+  cases op <;> simp [bstep, rebuildOk, hd, h1, h2] at hop ⊢
+
+theorem bay_assert_counterexample_aux :
+    let d : BDef := ⟨false, true⟩
+    (bstep d (bfresh d) .k0).2 = .ok .k0 ∧
+    (bstep d (brunOps d (bfresh d) [.cA, .kA]) .k0).2 = .err .AssertionError ∧
+    (bstep d (brunOps d (bfresh d) [.k0, .cA, .kA]) .k0).2 = .ok .k0 := by
+  decide
+
+theorem bay_cA_aux (d : BDef) (s : BState) : (bstep d s .cA).2.isOk = false := by
+  simp only [bstep]; split <;> rfl
+
+end Compmech.Lifecycle.Bay
+
+/-! ## ConeCyl -/
+namespace Compmech.Lifecycle.Cone
+
+/-- the axial load is what the definition says: from the user's `Fc`, or zero when there is none and the
+definition already ran `_rebuild` -/
+def CInv (d : CDef) (s : CState) : Prop :=
+  if d.fcGiven then s.fc = .user ∧ (s.nxx = .unset ∨ s.nxx = .user)
+  else s.fc = .none ∧ s.nxx = .zero
+
+def canonLoad (d : CDef) : Nxx := if d.fcGiven then .user else .zero
+
+theorem cinv_fresh (d : CDef) (h : d.fcGiven = true ∨ d.rebuilt = true) : CInv d (cfresh d) := by
+  cases d with | mk f r => cases f <;> cases r <;> simp_all [CInv, cfresh, rebuildC]
+
+theorem cstep_inv (d : CDef) (s : CState) (op : COp) (hi : CInv d s) :
+    CInv d (cstep s op).1 ∧ ∀ o l, (cstep s op).2 = .ok o l → o = op ∧ (l = none ∨ l = some (canonLoad d)) := by
+  cases d with | mk f r =>
+  cases s with | mk fc nxx geo lin =>
+  cases f <;> cases fc <;> cases nxx <;> simp [CInv] at hi <;>
+    cases geo <;> cases lin <;> cases op <;> simp [CInv, cstep, linear, rebuildC, canonLoad]
+
+theorem crunOps_inv (d : CDef) : ∀ (ops : List COp) (s : CState), CInv d s → CInv d (crunOps s ops) := by
+  intro ops
+  induction ops with
+  | nil => intro s h; exact h
+  | cons op ops ih => intro s h; exact ih _ (cstep_inv d s op h).1
+
+/-- which load a call reports is fixed by the call: `lb`, `fext`, `static` consume the axial load -/
+def usesLoad : COp → Bool
+  | .lb | .fext | .static => true
+  | _ => false
+
+theorem cstep_load (s : CState) (op o : COp) (l : Option Nxx) (h : (cstep s op).2 = .ok o l) :
+    (l = none ↔ usesLoad op = false) := by
+  cases s with | mk fc nxx geo lin =>
+  cases op <;> cases geo <;> cases lin <;> simp [cstep, usesLoad] at h ⊢ <;> (try simp [h.2.symm]) <;>
+    (try (obtain ⟨_, h2⟩ := h; subst h2; simp))
+
+theorem cone_history_independent_aux (d : CDef) (hd : d.fcGiven = true ∨ d.rebuilt = true) (h1 h2 : List COp)
+    (op : COp) (r1 r2 : COutcome) (e1 : (cstep (crunOps (cfresh d) h1) op).2 = r1)
+    (e2 : (cstep (crunOps (cfresh d) h2) op).2 = r2) (k1 : r1.isOk = true) (k2 : r2.isOk = true) : r1 = r2 := by
+  have i1 := crunOps_inv d h1 _ (cinv_fresh d hd)
+  have i2 := crunOps_inv d h2 _ (cinv_fresh d hd)
+  cases r1 with
+  | err e => simp [COutcome.isOk] at k1
+  | ok o1 l1 =>
+    cases r2 with
+    | err e => simp [COutcome.isOk] at k2
+    | ok o2 l2 =>
+      have a := (cstep_inv d _ op i1).2 o1 l1 e1
+      have b := (cstep_inv d _ op i2).2 o2 l2 e2
+      have c1 := cstep_load _ op o1 l1 e1
+      have c2 := cstep_load _ op o2 l2 e2
+      rw [a.1, b.1]
+      congr 1
+      rcases a.2 with ha | ha <;> rcases b.2 with hb | hb
+      · rw [ha, hb]
+      · rw [ha] at c1; simp at c1; rw [c1] at c2; rw [ha]; exact (c2.2 rfl).symm
+      · rw [hb] at c2; simp at c2; rw [c2] at c1; rw [hb]; exact c1.2 rfl
+      · rw [ha, hb]
+
+/-- no axial load defined, nothing rebuilt yet: `lb()` first uses the documented default `Fc = 1`, after any
+call that ran `_rebuild` it silently uses a ZERO axial load; and a `static()` after `lb()` carries the load
+`Fc = 1` that `lb` wrote into the definition -/
+theorem cone_order_counterexample_aux :
+    let s0 := cfresh ⟨false, false⟩
+    (cstep s0 .lb).2 = .ok .lb (some .one) ∧ (cstep (cstep s0 .static).1 .lb).2 = .ok .lb (some .zero) ∧
+    (cstep (cstep s0 .k0).1 .lb).2 = .ok .lb (some .zero) ∧
+    (cstep s0 .static).2 = .ok .static (some .zero) ∧ (cstep (cstep s0 .lb).1 .static).2 = .ok .static (some .one) := by
+  decide
+
+/-- `calc_fint` / `stress` as first call hand `self.F = None` to a compiled kernel: the process dies -/
+theorem cone_fresh_aux (d : CDef) :
+    (cstep (cfresh d) .fint).2 = .err (if d.rebuilt then .SEGV else .TypeError) ∧
+    (cstep (cfresh d) .stress).2 = .err (if d.rebuilt then .SEGV else .TypeError) ∧
+    (cstep (cfresh d) .uvw).2.isOk = d.rebuilt ∧
+    callOps.filter (fun op => (cstep (cstep (cfresh d) .k0).1 op).2.isOk) = callOps := by
+  cases d with | mk f r => cases f <;> cases r <;> decide
+
+end Compmech.Lifecycle.Cone
